@@ -296,6 +296,8 @@ const preludeSeq = `
 (declare-fun single (Int) BSeq)
 (declare-fun zeros (Int) BSeq)
 (declare-fun view ((Array Int Int) Int Int) BSeq)
+(declare-const zeroSArr (Array Int BSeq))
+(assert (forall ((i Int)) (! (= (select zeroSArr i) empty) :pattern ((select zeroSArr i)))))
 (assert (forall ((s BSeq)) (! (>= (len s) 0) :pattern ((len s)))))
 (assert (= (len empty) 0))
 (assert (forall ((a BSeq) (b BSeq)) (! (= (SeqEq a b) (and (= (len a) (len b))
@@ -345,7 +347,11 @@ var solverSpecs = []solverSpec{
 }
 
 func runOne(spec solverSpec, file string, timeoutS int) SolverResult {
-	ctx, cancel := context.WithTimeout(context.Background(), time.Duration(timeoutS+2)*time.Second)
+	return runOneCtx(context.Background(), spec, file, timeoutS)
+}
+
+func runOneCtx(parent context.Context, spec solverSpec, file string, timeoutS int) SolverResult {
+	ctx, cancel := context.WithTimeout(parent, time.Duration(timeoutS+2)*time.Second)
 	defer cancel()
 	argv := spec.argv(file, timeoutS)
 	cmd := exec.CommandContext(ctx, argv[0], argv[1:]...)
@@ -384,25 +390,41 @@ func Solve(query string, getvals []string, timeoutS int, all bool, dir, name str
 		return SolverResult{Status: "error", Output: err.Error()}
 	}
 	if !all {
-		var last SolverResult
-		tot := 0.0
-		for i, sp := range solverSpecs {
-			to := timeoutS
-			if i == 0 && timeoutS > 4 {
-				to = timeoutS // first solver gets the full budget
+		// fast path: the first solver alone with a short budget, then a race of all three
+		quick := 2
+		if timeoutS < quick {
+			quick = timeoutS
+		}
+		r := runOne(solverSpecs[0], file, quick)
+		if r.Status == "unsat" || r.Status == "sat" {
+			if r.Status == "sat" {
+				r.Model = parseModel(r.Output)
 			}
-			r := runOne(sp, file, to)
-			tot += r.Seconds
+			return r
+		}
+		spent := r.Seconds
+		type res struct{ r SolverResult }
+		ch := make(chan SolverResult, len(solverSpecs))
+		ctx, cancel := context.WithCancel(context.Background())
+		defer cancel()
+		for _, sp := range solverSpecs {
+			go func(sp solverSpec) { ch <- runOneCtx(ctx, sp, file, timeoutS) }(sp)
+		}
+		var last SolverResult
+		for range solverSpecs {
+			r := <-ch
 			if r.Status == "unsat" || r.Status == "sat" {
-				r.Seconds = tot
+				r.Seconds += spent
 				if r.Status == "sat" {
 					r.Model = parseModel(r.Output)
 				}
 				return r
 			}
-			last = r
+			if last.Status == "" || r.Status == "unknown" {
+				last = r
+			}
 		}
-		last.Seconds = tot
+		last.Seconds += spent
 		return last
 	}
 	var wg sync.WaitGroup
